@@ -36,6 +36,8 @@ var c08Sites = []hsite{
 	{line: "a <<E'F'\n", ops: []string{"<<"}, delims: []string{"EF"}, quoted: []bool{true}},
 	{line: "a <<E; b <<-F\n", ops: []string{"<<", "<<-"}, delims: []string{"E", "F"}, quoted: []bool{false, false}},
 	{line: "a <<E <<'F'\n", ops: []string{"<<", "<<"}, delims: []string{"E", "F"}, quoted: []bool{false, true}},
+	{line: "a <<'E' <<F\n", ops: []string{"<<", "<<"}, delims: []string{"E", "F"}, quoted: []bool{true, false}},
+	{line: "a <<\\E; b <<F\n", ops: []string{"<<", "<<"}, delims: []string{"E", "F"}, quoted: []bool{true, false}},
 	{line: "a <<E | b <<F\n", ops: []string{"<<", "<<"}, delims: []string{"E", "F"}, quoted: []bool{false, false}},
 	{line: "if a <<E\n", ops: []string{"<<"}, delims: []string{"E"}, quoted: []bool{false}, tail: "then b; fi\n"},
 	{line: "{ a <<E\n", ops: []string{"<<"}, delims: []string{"E"}, quoted: []bool{false}, tail: "}\n"},
